@@ -216,6 +216,9 @@ func RunPkt(prop, tier string, models []*PktModel, depth []int, budget time.Dura
 	return RunPktExtra(prop, tier, models, depth, budget, assumptions, nil)
 }
 
+// ExtraCoverage lets a check add coverage facts of its scripted parts to the evidence.
+var ExtraCoverage = map[string]any{}
+
 // RunPktExtra is RunPkt with findings produced by additional scripted comparisons.
 func RunPktExtra(prop, tier string, models []*PktModel, depth []int, budget time.Duration, assumptions []string, extra []explore.Finding) int {
 	start := time.Now()
@@ -268,6 +271,9 @@ func RunPktExtra(prop, tier string, models []*PktModel, depth []int, budget time
 	cov["outcomes"] = outcomes
 	cov["probe_counters"] = counters
 	cov["probes"] = counters["probes"]
+	for k, v := range ExtraCoverage {
+		cov[k] = v
+	}
 	return report.Finish(prop, tier, start, "model_checking", cov, assumptions, all)
 }
 
